@@ -1,7 +1,11 @@
 """Generator for C16: collection states (two collections) and pipelines whose stages EDIT documents.
 
 Two streams:
-  * `rich`  — the whole supported stage vocabulary (direct oracles on /repo only);
+  * `rich`  — the whole supported stage vocabulary, each stage with all the options it accepts (in
+              particular every option that is itself a document of the caller's pipeline: the
+              filter documents of `$match` and `$graphLookup.restrictSearchWithMatch`, `$bucket`
+              output / boundaries / default, accumulator and expression documents); direct
+              oracles on /repo only;
   * `model` — the fragment MongoModel.AggHeap models concretely (direct oracles AND correspondence).
 """
 
@@ -82,9 +86,68 @@ def gen_addfields(rng, model):
     return {op: spec}
 
 
+# ---- filter documents (every stage that takes one from the pipeline: $match, and
+# ---- $graphLookup.restrictSearchWithMatch) -------------------------------------------------
+
+FILTER_FIELDS = ['k', 'k', 'a.x', 'a', 'arr.p', 'arr', 's', '_id', 'a.y.z']
+
+
+def gen_clause_value(rng, field):
+    """the right-hand side of one clause: a scalar, a sub-document, an array, or a document of
+    one or two operators (each with its own nested containers)"""
+    r = rng.random()
+    if r < 0.30:
+        return rng.choice(INTS)
+    if r < 0.36:
+        return rng.choice([None, 'a', {'x': 1}, {'p': 1}, [1, 2], []])
+    ops = {}
+    for _ in range(rng.choice([1, 1, 1, 2])):
+        o = rng.choice(['$gte', '$lte', '$gt', '$lt', '$ne', '$eq', '$in', '$in', '$nin',
+                        '$exists', '$not', '$elemMatch', '$all', '$size', '$type'])
+        if o in ('$in', '$nin', '$all'):
+            ops[o] = [rng.choice(INTS + [None, {'x': 1}]) for _ in range(rng.choice([1, 2, 2, 3]))]
+        elif o == '$exists':
+            ops[o] = rng.choice([True, False])
+        elif o == '$not':
+            ops[o] = rng.choice([{'$gte': rng.choice(INTS)}, {'$lt': rng.choice(INTS)},
+                                 {'$in': [0, 1]}])
+        elif o == '$elemMatch':
+            ops[o] = rng.choice([{'p': rng.choice(INTS)}, {'p': {'$gte': 1}}, {'$gte': 1}])
+        elif o == '$size':
+            ops[o] = rng.choice([0, 1, 2])
+        elif o == '$type':
+            ops[o] = rng.choice(['int', 'object', 'array', 'string'])
+        else:
+            ops[o] = rng.choice(INTS)
+    return ops
+
+
+def gen_filter_doc(rng, depth=0, about=None):
+    """a filter document: 0-3 clauses on fields of the generated documents (`about`: a field the
+    host stage itself works with, favoured), logical operators over lists of filter documents,
+    $expr"""
+    spec = {}
+    n = rng.choice([0, 1, 1, 1, 2, 2, 3]) if depth == 0 else rng.choice([1, 1, 2])
+    for _ in range(n):
+        r = rng.random()
+        if r < 0.12 and depth < 2:
+            spec[rng.choice(['$and', '$or', '$or', '$nor'])] = [
+                gen_filter_doc(rng, depth + 1, about) for _ in range(rng.choice([1, 2, 2]))]
+        elif r < 0.17:
+            spec['$expr'] = rng.choice([{'$eq': ['$k', 1]}, {'$gte': ['$k', '$a.x']},
+                                        {'$ne': ['$a', {'$literal': {'x': 1}}]}])
+        else:
+            f = about if (about is not None and rng.random() < 0.3) else rng.choice(FILTER_FIELDS)
+            spec[f] = gen_clause_value(rng, f)
+    return spec
+
+
 def gen_match(rng, model):
-    return {'$match': rng.choice([{}, {'k': 1}, {'k': 0}, {'k': {'$gte': 1}}, {'a.x': 1}]
-                                  if not model else [{}, {'k': 1}, {'k': 0}, {'k': 2}])}
+    if model:
+        return {'$match': rng.choice([{}, {'k': 1}, {'k': 0}, {'k': 2}])}
+    if rng.random() < 0.4:
+        return {'$match': rng.choice([{}, {'k': 1}, {'k': 0}, {'k': {'$gte': 1}}, {'a.x': 1}])}
+    return {'$match': gen_filter_doc(rng)}
 
 
 def gen_lookup(rng, model):
@@ -142,6 +205,54 @@ def gen_replace_root(rng, model):
         ['$a', '$a', {'q': '$a', 'k': '$k'}, {'$literal': {'q': {'r': 1}}}, '$$ROOT', '$a.y'])}}
 
 
+def gen_graph_lookup(rng):
+    """`$graphLookup` with every option it takes (python-only: outside the heap model): the
+    search filter `restrictSearchWithMatch` (any filter document, also one with a clause on
+    connectToField itself), depthField, maxDepth, expression-valued startWith, dotted and
+    array-valued connect fields, from = another / the same / an absent collection"""
+    to = rng.choice(['k', 'k', 'k', 'a.x', '_id', 'arr.p', 's'])
+    o = {'from': rng.choice(['b', 'b', 'b', 'a', 'a', 'c']),
+         'startWith': rng.choice(['$k', '$k', '$k', '$a.x', '$arr.p', '$arr', '$_id', '$nope', 1,
+                                  [0, 1], {'$literal': 1}, {'$add': ['$k', 1]},
+                                  {'$ifNull': ['$a.x', '$k']}]),
+         'connectFromField': rng.choice(['k', 'k', 'k', 'a.x', 'arr.p', 'arr', '_id', 'nope']),
+         'connectToField': to,
+         'as': rng.choice(['g', 'g', 'g', 'j', 'a', 'arr'])}
+    if rng.random() < 0.6:
+        o['maxDepth'] = rng.choice([0, 0, 1, 2, 3])
+    if rng.random() < 0.35:
+        o['depthField'] = rng.choice(['d', 'd', 'k', 'depth'])
+    if rng.random() < 0.65:
+        o['restrictSearchWithMatch'] = gen_filter_doc(rng, 0, to)
+    if rng.random() < 0.3:
+        # option order is the caller's: any
+        ks = list(o)
+        rng.shuffle(ks)
+        o = {k: o[k] for k in ks}
+    return {'$graphLookup': o}
+
+
+def gen_bucket(rng):
+    """`$bucket` with every option it takes: expression-valued groupBy, boundaries, default (a
+    scalar or absent), output (a document of accumulators, or absent)"""
+    o = {'groupBy': rng.choice(['$k', '$k', '$a.x', '$_id', {'$add': ['$k', 1]},
+                                {'$ifNull': ['$a.x', 0]}]),
+         'boundaries': rng.choice([[0, 1, 3], [0, 1, 3], [0, 2], [1, 2, 3], [0, 1, 2, 3]])}
+    if rng.random() < 0.7:
+        o['default'] = rng.choice(['other', 'other', -1, 9, None])
+    if rng.random() < 0.7:
+        accs = [('p', {'$push': '$a'}), ('p', {'$push': '$a'}), ('r', {'$push': '$$ROOT'}),
+                ('f', {'$first': '$a'}), ('l', {'$last': '$arr'}), ('c', {'$sum': 1}),
+                ('s', {'$addToSet': '$k'}), ('m', {'$max': '$k'}),
+                ('q', {'$push': {'u': '$a', 'v': '$k'}})]
+        out = {}
+        for _ in range(rng.choice([1, 1, 2])):
+            k, v = rng.choice(accs)
+            out[k] = v
+        o['output'] = out
+    return {'$bucket': o}
+
+
 def gen_simple(rng, model, in_facet):
     r = rng.random()
     if r < 0.22:
@@ -159,7 +270,8 @@ def gen_simple(rng, model, in_facet):
     if r < 0.75:
         return gen_replace_root(rng, model)
     if r < 0.79:
-        return {'$sort': rng.choice([{'k': 1}, {'k': -1}, {'_id': -1}] if not model
+        return {'$sort': rng.choice([{'k': 1}, {'k': -1}, {'_id': -1}, {'k': 1, '_id': -1},
+                                     {'a.x': -1, 'k': 1}] if not model
                                     else [{'_id': -1}, {'_id': 1}])}
     if r < 0.83:
         return {rng.choice(['$skip', '$limit']): rng.choice([0, 1, 2])}
@@ -168,14 +280,12 @@ def gen_simple(rng, model, in_facet):
     if r < 0.91:
         return {'$count': 'n'}
     if r < 0.94 and not model:
-        return rng.choice([
-            {'$graphLookup': {'from': 'b', 'startWith': '$k', 'connectFromField': 'k',
-                              'connectToField': 'k', 'as': 'g', 'maxDepth': 0}},
-            {'$bucket': {'groupBy': '$k', 'boundaries': [0, 1, 3], 'default': 'other',
-                         'output': {'p': {'$push': '$a'}}}},
+        return gen_bucket(rng) if rng.random() < 0.5 else rng.choice([
             {'$sample': {'size': 1, 'bogus': 1}},
             {'$sample': {}},
         ])
+    if r < 0.985 and not model:
+        return gen_graph_lookup(rng)
     return gen_addfields(rng, model)
 
 
